@@ -13,7 +13,8 @@ RULE = ("scripts as for C09 (2..4 scripted modules with handler / start / task /
         "handle_message, at_sim_start (initial and restarts), at_sim_end and in spawned tasks: every (module, callback kind, program, "
         "position) of a healthy base simulation, both stereotypes (on_panic_catch true / false), one or several panicking modules, panics "
         "after a shutdown request in the same callback; each script is simulated twice in one process, and for single-stage modules a "
-        "third time with the panics of one module replaced by 'quiet' (falls silent) to compare the other modules' logs.  "
+        "third time with the panics of one module replaced by 'quiet' (falls silent) to compare the other modules' logs (all modules "
+        "but catching ones with several stages).  "
         "non-trivial = distinct script whose run contains a callback panic and a later event of another module")
 TRUSTED = c09.TRUSTED + [
     "a callback panic is observed through the record the scripted callback writes just before panic!(); the error list is read from the "
@@ -30,8 +31,8 @@ CLAIM = dict(
          "shutdow_and_restart before it panicked; (2) errors_exact: the PanicError entries of the returned error are exactly the callback "
          "panics of non-catching modules, one per panic, in the order of the panics (so Ok only if there is none); (3) globals_released: "
          "after every start-up step and every dispatched event, panicking ones included, the module-context slot is empty and the event "
-         "buffer drained, and the slot is empty after every at_sim_end; (4) others_as_if_silent (partial): for a module m with a single "
-         "start-up stage, every record of every other module during start-up and event dispatch is the same as in the run where m's "
+         "buffer drained, and the slot is empty after every at_sim_end; (4) others_as_if_silent (partial): for a module m that does not "
+         "catch panics (any number of start-up stages) or has a single stage, every record of every other module during start-up and event dispatch is the same as in the run where m's "
          "callbacks fall silent (return, request shutdown unless a request is pending, polled tasks end) wherever they panic -- proved "
          "as a two-phase simulation (equal worlds until the panic; afterwards equal up to events that are inert for a dead m).  Tied to "
          "des on every invocation by differential runs (panic!() in scripted callbacks and tasks on the real runtime, set_stereotyp, "
@@ -41,9 +42,11 @@ CLAIM = dict(
     note="Partial: unwinding itself (that catch_unwind leaves tokio's and Rust's internal state intact, lock poisoning) is not modelled, only "
          "observed through the second simulation. Panics inside spawned tasks are caught by tokio and reported as JoinErrors by at_sim_end "
          "(try_join); they do not deactivate the module (the property text says they should; the code does not) -- the claim covers callback "
-         "panics; JoinError entries are only checked by the monitor (each has a panicked task). (4) is FALSE for modules with several "
-         "start-up stages on the pinned code: at_sim_start(stage >= 1) is still called on a module whose stage 0 panicked, polls its tasks, "
-         "and a task can restart the module and send (corpus/C13/multistage_panic.txt, proposed patch fixes/F15.diff); the tear-down "
+         "panics; JoinError entries are only checked by the monitor (each has a panicked task). (4) was false for every multi-stage module "
+         "before 1526470 (the start-up sweep ran the later stages of a module whose stage 0 panicked; Refuted/C13.v (a), "
+         "corpus/C13/multistage_panic.txt) and is still FALSE for catching modules with several stages: module_restart goes on with the "
+         "later stages after a caught panic, polls the tasks spawned before it, and a task can restart the module and send "
+         "(Refuted/C13.v (b), proposed patch fixes/F17.diff); the tear-down "
          "records of other modules agree only up to the final time stamp (left-over wake-ups of the dead module move the end of the "
          "simulation) -- checked by the monitor, not proved. at_sim_end is called on panicked modules too.",
     technique="Coq: trace invariants over a step relation (panic => inactive, inactive => no records), error-list bookkeeping, and a "
@@ -120,6 +123,12 @@ def proj(rs, m):
     return body + tail + [r for r in errs if r[2] == m]
 
 
+def compared(d, m):
+    """the falls-silent comparison is claimed for every module except a catching one with several start-up stages
+    (module_restart goes on with the later stages after a caught panic: Refuted/C13.v (b), fixes/F17)"""
+    return d["mods"][m]["stages"] == 1 or not d["mods"][m]["catch"]
+
+
 def monitor(script, out):
     """C13 evaluated on the implementation's log alone"""
     try:
@@ -138,7 +147,7 @@ def monitor(script, out):
                 for p in ps:
                     p[:] = [("quiet",) if x[0] == "panic" else x for x in p]
             check_panics(dq, v)
-            if d["mods"][m]["stages"] == 1:
+            if compared(d, m):
                 for o in range(len(d["mods"])):
                     if o != m and proj(a, o) != proj(v, o):
                         pa, pv = proj(a, o), proj(v, o)
@@ -193,7 +202,9 @@ def mechanisms(script, out):
     if not run.errs and panics:
         ms.add("run_ok_all_caught")
     if v is not None:
-        ms.add("silent_variant_compared" if d["mods"][d["variant"]]["stages"] == 1 else "silent_variant_run")
+        ms.add("silent_variant_compared" if compared(d, d["variant"]) else "silent_variant_run")
+        if d["mods"][d["variant"]]["stages"] > 1:
+            ms.add("silent_variant_multi_stage")
     return ms
 
 
@@ -249,8 +260,8 @@ def gen_script(rng):
     cb = [s[0] for s in chosen if s[1] != "tasks"]
     if cb and rng.random() < 0.6:
         d["variant"] = rng.choice(cb)
-        if rng.random() < 0.7:
-            d["mods"][d["variant"]]["stages"] = 1
+        if rng.random() < 0.4:
+            d["mods"][d["variant"]]["stages"] = rng.choice([2, 3])
     return encode(d)
 
 
